@@ -327,6 +327,7 @@ func (fs *memFS) OpenFile(ctx context.Context, name string, flag int, perm os.Fi
 		n:                n,
 		nameSnapshot:     frag,
 		childrenSnapshot: children,
+		flag:             flag,
 	}, nil
 }
 
@@ -493,8 +494,15 @@ type memFile struct {
 	n                *memFSNode
 	nameSnapshot     string
 	childrenSnapshot []os.FileInfo
+	// flag is the flag argument of the OpenFile call that returned this file.
+	flag int
 	// pos is protected by n.mu.
 	pos int
+}
+
+// accessMode returns the O_RDONLY, O_WRONLY or O_RDWR part of an OpenFile flag.
+func accessMode(flag int) int {
+	return flag & (os.O_RDONLY | os.O_WRONLY | os.O_RDWR)
 }
 
 // A *memFile implements the optional DeadPropsHolder interface.
@@ -512,6 +520,10 @@ func (f *memFile) Read(p []byte) (int, error) {
 	defer f.n.mu.Unlock()
 	if f.n.mode.IsDir() {
 		return 0, os.ErrInvalid
+	}
+	if accessMode(f.flag) == os.O_WRONLY {
+		// The file was opened for writing only.
+		return 0, os.ErrPermission
 	}
 	if f.pos >= len(f.n.data) {
 		return 0, io.EOF
@@ -581,6 +593,10 @@ func (f *memFile) Write(p []byte) (int, error) {
 
 	if f.n.mode.IsDir() {
 		return 0, os.ErrInvalid
+	}
+	if accessMode(f.flag) == os.O_RDONLY {
+		// The file was opened for reading only.
+		return 0, os.ErrPermission
 	}
 	if f.pos < len(f.n.data) {
 		n := copy(f.n.data[f.pos:], p)
